@@ -44,12 +44,33 @@ Theorem C04_nth : forall t n p1 p2 s1,
 Proof. exact nth_correct. Qed.
 Print Assumptions C04_nth.
 
-Theorem C04_consecutive : forall t p1 p2,
+(* FULL STATEMENT (false of the code as it is, see C04_consecutive_refuted):
+     forall t p1 p2, shape_ok t = true -> valid t p1 -> valid t p2 ->
+       (consecutive t p1 p2 = Ok true <-> consecutive_spec t p1 p2)
+   PROVED: the statement under the guard K_cons_rel p1 p2 = false (the two paths have no common
+   prefix besides the root), and the full statement for the repaired form consecutive_fixed.
+   The repair is not committed to /repo because the shipped reST formalization depends on the
+   defective behaviour (DESIGN.md section 7). *)
+Theorem C04_consecutive_partial : forall t p1 p2,
+  K_cons_rel p1 p2 = false ->
   shape_ok t = true -> valid t p1 -> valid t p2 ->
   (exists b, consecutive t p1 p2 = Ok b) /\
   (consecutive t p1 p2 = Ok true <-> consecutive_spec t p1 p2).
-Proof. exact consecutive_correct. Qed.
-Print Assumptions C04_consecutive.
+Proof. exact consecutive_partial. Qed.
+Print Assumptions C04_consecutive_partial.
+
+Theorem C04_consecutive_fixed : forall t p1 p2,
+  shape_ok t = true -> valid t p1 -> valid t p2 ->
+  (exists b, consecutive_fixed t p1 p2 = Ok b) /\
+  (consecutive_fixed t p1 p2 = Ok true <-> consecutive_spec t p1 p2).
+Proof. exact consecutive_fixed_correct. Qed.
+Print Assumptions C04_consecutive_fixed.
+
+Theorem C04_consecutive_refuted :
+  exists t p1 p2, shape_ok t = true /\ valid t p1 /\ valid t p2 /\ K_cons_rel p1 p2 = true /\
+                  consecutive t p1 p2 = Ok true /\ ~ consecutive_spec t p1 p2.
+Proof. exact consecutive_refuted. Qed.
+Print Assumptions C04_consecutive_refuted.
 
 Theorem C04_level : forall t op nt p1 p2,
   shape_ok t = true -> (level_check t op nt p1 p2 = true <-> level_spec t op nt p1 p2).
